@@ -13,11 +13,24 @@
  * op noalloc_line  the same through the public no-alloc logger (aws_logger_init_noalloc + AWS_LOGF_INFO) writing to a
  *     temporary file, with messages around MAXIMUM_NO_ALLOC_LOG_LINE_SIZE (8192): every line that reaches the file ends
  *     in exactly one '\n' and contains no NUL.
+ * op bg_drain      (units background_thread, background_thread_b40): the real background channel with a capturing writer
+ *     that blocks inside its FIRST write until the gate is opened.  Main thread: send line 0, wait until the background
+ *     thread sits in that write, send n more lines (n = r_first_batch, the number of lines the counterexample has pending
+ *     when `finished` is seen; default 40), start a helper that opens the gate after 300 ms, call
+ *     aws_log_channel_clean_up (sets finished, joins).  The thread then finds n lines pending together with finished.
+ *     After clean-up: all n+1 lines were handed to the writer, once each, in order (leaked lines show up in ASan's
+ *     leak report as well).  If the helper fires before clean-up has set the flag the run merely passes.
  * exit 0: property held on this input; exit 1: violated (reason printed); exit 3: input not constructible.
  */
 #include <aws/common/common.h>
+#include <aws/common/log_channel.h>
 #include <aws/common/log_formatter.h>
+#include <aws/common/log_writer.h>
 #include <aws/common/logging.h>
+#include <aws/common/string.h>
+
+#include <pthread.h>
+#include <unistd.h>
 
 #include <stdarg.h>
 #include <stdio.h>
@@ -138,6 +151,66 @@ static int op_noalloc_line(void) {
     return s_fail;
 }
 
+/* ---- op bg_drain */
+static pthread_mutex_t s_gate_lock = PTHREAD_MUTEX_INITIALIZER;
+static pthread_cond_t s_gate_cond = PTHREAD_COND_INITIALIZER;
+static int s_gate_open, s_in_first_write;
+static size_t s_bg_writes, s_bg_out_of_order;
+static int s_bg_write(struct aws_log_writer *writer, const struct aws_string *output) {
+    (void)writer;
+    pthread_mutex_lock(&s_gate_lock);
+    if (s_bg_writes == 0) {
+        s_in_first_write = 1;
+        pthread_cond_broadcast(&s_gate_cond);
+        while (!s_gate_open) pthread_cond_wait(&s_gate_cond, &s_gate_lock);
+    }
+    char want[32];
+    snprintf(want, sizeof(want), "L%zu", s_bg_writes);
+    if (strcmp(want, aws_string_c_str(output)) != 0) s_bg_out_of_order++;
+    s_bg_writes++;
+    pthread_mutex_unlock(&s_gate_lock);
+    return AWS_OP_SUCCESS;
+}
+static void s_bg_writer_clean_up(struct aws_log_writer *writer) { (void)writer; }
+static void *s_bg_open_gate(void *arg) {
+    (void)arg;
+    usleep(300 * 1000);
+    pthread_mutex_lock(&s_gate_lock);
+    s_gate_open = 1;
+    pthread_cond_broadcast(&s_gate_cond);
+    pthread_mutex_unlock(&s_gate_lock);
+    return NULL;
+}
+static int op_bg_drain(void) {
+    size_t n = (size_t)get("r_first_batch", 40);
+    if (n == 0 || n > 100000) n = 40;
+    struct aws_allocator *alloc = aws_default_allocator();
+    struct aws_log_writer_vtable vt = {.write = s_bg_write, .clean_up = s_bg_writer_clean_up};
+    struct aws_log_writer writer = {.vtable = &vt, .allocator = alloc, .impl = NULL};
+    struct aws_log_channel channel;
+    if (aws_log_channel_init_background(&channel, alloc, &writer)) return 3;
+    char text[32];
+    for (size_t k = 0; k <= n; ++k) {
+        snprintf(text, sizeof(text), "L%zu", k);
+        struct aws_string *line = aws_string_new_from_c_str(alloc, text);
+        if (channel.vtable->send(&channel, line)) return 3;
+        if (k == 0) { /* wait until the background thread has taken line 0 and sits in the writer */
+            pthread_mutex_lock(&s_gate_lock);
+            while (!s_in_first_write) pthread_cond_wait(&s_gate_cond, &s_gate_lock);
+            pthread_mutex_unlock(&s_gate_lock);
+        }
+    }
+    pthread_t helper;
+    if (pthread_create(&helper, NULL, s_bg_open_gate, NULL)) return 3;
+    aws_log_channel_clean_up(&channel);
+    pthread_join(helper, NULL);
+    printf("%zu lines accepted before clean-up (%zu pending when finished was set), %zu handed to the writer, %zu out of order\n",
+           n + 1, n, s_bg_writes, s_bg_out_of_order);
+    if (s_bg_writes != n + 1) FAIL("%zu accepted lines, %zu written: clean-up did not flush everything already accepted", n + 1, s_bg_writes);
+    if (s_bg_out_of_order) FAIL("%zu line(s) written out of order", s_bg_out_of_order);
+    return s_fail;
+}
+
 int main(int argc, char **argv) {
     s_argc = argc;
     s_argv = argv;
@@ -147,6 +220,7 @@ int main(int argc, char **argv) {
     }
     if (!strcmp(argv[1], "format_line")) return op_format_line();
     if (!strcmp(argv[1], "noalloc_line")) return op_noalloc_line();
+    if (!strcmp(argv[1], "bg_drain")) return op_bg_drain();
     fprintf(stderr, "unknown op %s\n", argv[1]);
     return 3;
 }
